@@ -59,8 +59,8 @@ PROPS = {
     "C10": P("voting power", ["staking", "default"], ["staking", "flag", "supply", "bank"], ["endblock", "slash"] + USER_OPS,
              "rebalance target theorems over the staking model; correspondence of the staking view after end-of-block",
              module=None),
-    "C11": P("virtual staking tokens", ["staking", "rewards"], ["supply", "bank", "staking"], ["endblock"] + USER_OPS,
-             "mint/burn pairing theorems; correspondence of supply and pool balances", module=None),
+    "C11": P("virtual staking tokens", ["staking", "rewards"], ["query", "supply", "bank", "staking"], ["endblock"] + USER_OPS + ["slash"],
+             "mint/burn pairing theorems; correspondence of supply and pool balances; the bank SupplyOf/TotalSupply queries against the model's net-supply functions (`Q` lines)", module=None, probes="C11"),
     "C12": P("reward pool solvency", ["rewards"], ["vals", "dels", "bank"], USER_OPS + ["slash", "endblock"],
              "partial solvency theorem; claim-all probes on a discarded branch", module=None, probes="C12"),
     "C13": P("reward entitlement", ["rewards"], ["vals", "dels", "bank"], USER_OPS,
